@@ -6,6 +6,7 @@ C07 development).
 -/
 import Rpft.Props.C07
 import Rpft.Lemmas.RowFlow
+import Rpft.Lemmas.RowShort
 set_option linter.unusedSimpArgs false
 set_option linter.unusedVariables false
 namespace Rpft.Props.C09
@@ -212,32 +213,89 @@ theorem edgeLeaves_are_the_long_forms :
 theorem star_element_eq_indexed_cell (k : Nat) (b : Str) (hb : b ∈ edgeLeaves) (out : Tree)
     (x t : Str) (h : parseAsString t = .ok x) :
     parseEntry flowRowTy out (idxKey k b, Sum.inr (.atom x)) =
-    parseEntry flowRowTy out (idxKey k b, Sum.inl t) := by
-  apply parseEntry_star_eq_cell flowRowTy out _ x t h
-  have hbk : ∀ c ∈ b, keyChar c = true ∧ True := by
-    simp only [edgeLeaves, List.mem_cons, List.not_mem_nil, or_false] at hb
-    rcases hb with rfl | rfl | rfl | rfl | rfl <;> decide
-  have hkey : ∀ c ∈ idxKey k b, keyChar c = true := by
-    intro c hc
-    simp only [idxKey, List.mem_append, List.mem_cons] at hc
-    rcases hc with h | rfl | h | rfl | h
-    · revert c; decide
-    · decide
-    · exact printNat_keyChar k c h
-    · decide
-    · exact (hbk c h).1
-  rw [getFieldName_key _ hkey]
-  simp only [idxKey]
-  rw [splitDot_append edgesS _ (by decide), splitDot_append _ _ (printNat_no_dot k)]
-  intro lt hlt
-  simp only [edgeLeaves, List.mem_cons, List.not_mem_nil, or_false] at hb
-  rcases hb with rfl | rfl | rfl | rfl | rfl
-  all_goals
-    have : lt = Ty.str := by
-      have e : some lt = some Ty.str := hlt.symm.trans rfl
-      exact Option.some.inj e
-    subst this
-    rfl
+    parseEntry flowRowTy out (idxKey k b, Sum.inl t) :=
+  star_elem_eq_cell k b hb out x t h
+
+/-! ### whole rows: short headers and `*` columns = the fully indexed row -/
+
+/-- the fully indexed form of a flow row: headers renamed by the context remap
+(`from` ↦ `edges.*.from_`, `message_text` ↦ the main argument of the row type, …), then
+every `*` column split into one column per element (`edges.1.from_`, `edges.2.from_`, …; a
+single value broadcast to the longest list with the same prefix) -/
+def indexedOf (d : List (Str × Str)) : List (Str × Str) :=
+  match rekey flowRowSchema d with
+  | .ok d1 =>
+    match preParse d1 with
+    | .ok cols => indexedRow cols
+    | .error _ => []
+  | .error _ => []
+
+/-- the rows covered: the header remap succeeds (a `message_text` column needs a known row
+type); the `*` columns are those the short headers stand for (`edges.*.b`, `b` a string leaf of
+an edge) and hold one string or a flat list of strings; the indexed columns are pairwise
+different (the indexed row is a row, i.e. a Python `dict`) -/
+def shortRowOk (d : List (Str × Str)) : Bool :=
+  match rekey flowRowSchema d with
+  | .ok d1 =>
+    match preParse d1 with
+    | .ok cols => flowStarOk cols && decide (((indexedRow cols).map Prod.fst).Nodup)
+    | .error _ => false
+  | .error _ => false
+
+/-- **Short row = fully indexed row**, as ONE statement about whole rows: a flow row given
+with short headers and `*` columns (any mixture with long and plain headers, any cell texts,
+any number of edges) parses exactly like its fully indexed form, whose headers are all long,
+`*`-free and untouched by the context remap.  Composes `short_eq_long`,
+`message_text_eq_main_arg`, `asterisk_expand`, `asterisk_broadcast` and
+`star_element_eq_indexed_cell` through the fold of `parse_row`. -/
+theorem short_row_eq_indexed_row (d : List (Str × Str)) (h : shortRowOk d = true) :
+    parseRow flowRowSchema d = parseRow flowRowSchema (indexedOf d) ∧
+    ∀ kv ∈ indexedOf d, hasStar kv.1 = false ∧
+      ctxRemap flowRowSchema (indexedOf d) kv.1 = .ok kv.1 := by
+  unfold shortRowOk at h
+  unfold indexedOf
+  cases h1 : rekey flowRowSchema d with
+  | error e => simp [h1] at h
+  | ok d1 =>
+    simp only [h1] at h ⊢
+    cases h2 : preParse d1 with
+    | error e => simp [h2] at h
+    | ok cols =>
+      simp only [h2, Bool.and_eq_true, decide_eq_true_eq] at h ⊢
+      exact flow_short_eq_indexed d d1 cols h1 h2 h.1 h.2
+
+def exShortRow : List (Str × Str) :=
+  [("type".toList, "send_message".toList), ("from".toList, "start".toList),
+   ("condition".toList, "a\\|x|b".toList), ("condition_type".toList, "has_phrase".toList),
+   ("message_text".toList, "hi; there".toList), ("_nodeId".toList, "n1".toList)]
+
+/-- non-vacuity: a short row with two edges (one broadcast `from`, a two-element `condition`
+with an escaped separator, a broadcast `condition_type`) is covered, and its indexed form is
+the expected row -/
+example : shortRowOk exShortRow = true ∧
+    indexedOf exShortRow =
+      [("type".toList, "send_message".toList),
+       ("edges.1.from_".toList, "start".toList), ("edges.2.from_".toList, "start".toList),
+       ("edges.1.condition.value".toList, "a|x".toList), ("edges.2.condition.value".toList, "b".toList),
+       ("edges.1.condition.type".toList, "has_phrase".toList),
+       ("edges.2.condition.type".toList, "has_phrase".toList),
+       ("mainarg_message_text".toList, "hi; there".toList), ("node_uuid".toList, "n1".toList)] ∧
+    (parseRow flowRowSchema exShortRow).toOption.isSome = true := by decide +kernel
+
+/-- the `*` columns must be string leaves: an element of `edges.*.condition` is taken as ONE
+value, the cell `edges.1.condition` with the same text is split again -/
+theorem short_row_needs_string_leaves :
+    let d := [("type".toList, "send_message".toList), ("edges.*.condition".toList, "a\\;b|c".toList)]
+    shortRowOk d = false ∧
+    (match parseRow flowRowSchema d, parseRow flowRowSchema (indexedOf d) with
+      | .ok a, .ok b => a != b
+      | _, _ => false) = true := by decide +kernel
+
+/-- the `*` cells must be flat: an element that is itself a list is not a string cell -/
+theorem short_row_needs_flat_star_cells :
+    let d := [("type".toList, "send_message".toList), ("from".toList, "a;b|c".toList)]
+    shortRowOk d = false ∧ (parseRow flowRowSchema d).toOption.isSome = false ∧
+    (parseRow flowRowSchema (indexedOf d)).toOption.isSome = true := by decide +kernel
 
 /-! ### positional vs keyword records -/
 
